@@ -27,6 +27,7 @@ type vfcCfg struct {
 	RO      bool   `json:"ro"`
 	Squash  string `json:"squash"`
 	Profile string `json:"profile"`
+	Async   bool   `json:"async"`
 }
 
 type vfcClient struct {
@@ -482,7 +483,7 @@ func vfcNewClient(t testing.TB, tr *vfTrace, cfg vfcCfg, hist int, seed int64) *
 
 // vfcNewClientOn exports an existing backend.
 func vfcNewClientOn(t testing.TB, tr *vfTrace, cfg vfcCfg, hist int, seed int64, fs *vfsFS) *vfcClient {
-	opts := ExportOptions{CacheNegativeLookups: cfg.Neg, EnableDirCache: cfg.Dir, MaxWorkers: 2, ReadOnly: cfg.RO, Squash: cfg.Squash}
+	opts := ExportOptions{CacheNegativeLookups: cfg.Neg, EnableDirCache: cfg.Dir, MaxWorkers: 2, ReadOnly: cfg.RO, Squash: cfg.Squash, Async: cfg.Async}
 	if cfg.TTL == "min" {
 		opts.AttrCacheTimeout = time.Nanosecond
 		opts.NegativeCacheTimeout = time.Nanosecond
